@@ -227,6 +227,16 @@ Theorem C01_arch_context_roundtrip : forall (level : nat) (x : vfile) (c0 : Z ->
 Proof. exact arch_context_roundtrip. Qed.
 Print Assumptions C01_arch_context_roundtrip.
 
+(* the SSE control/status register MXCSR (rounding mode, sticky exception flags, masks) is saved first and restored
+   last by the generated pair: floating-point work of a script or of libc inside a hook is invisible to the traced program *)
+Theorem C01_mxcsr_preserved : forall csr clobber : Z, mxcsr_now csr clobber = csr.
+Proof. exact mxcsr_preserved. Qed.
+Print Assumptions C01_mxcsr_preserved.
+
+Theorem C01_mxcsr_legacy_refuted : exists csr clobber, mxcsr_roundtrip false csr clobber <> csr.
+Proof. exact mxcsr_legacy_refuted. Qed.
+Print Assumptions C01_mxcsr_legacy_refuted.
+
 (* the code before fix C01-6 (AVX pair on a machine with live zmm state) lost bits 256-511 *)
 Theorem C01_arch_context_avx_only_refuted :
   exists (x : vfile) c0 clobber r i, (r < 8)%nat /\ (i < 8)%nat /\ arch_roundtrip_avx_only x c0 clobber r i <> x r i.
